@@ -38,8 +38,9 @@ def _job(a):
     cfg = os.path.join(tmp, "a%d.cfg" % i)
     obs.write(src, render(c["prog"], how))
     pre = "align_assign" if how == "func" else "align_enum_equ"
-    obs.write(cfg, "%s_span=%d\n%s_thresh=%d\nalign_on_tabstop=%s\nindent_columns=4\nindent_with_tabs=0\noutput_tab_size=%d\nnl_max=0\n"
-              "eat_blanks_before_close_brace=false\neat_blanks_after_open_brace=false\n" % (pre, c["span"], pre, c["thresh"], str(c["tabstop"]).lower(), TAB))
+    obs.write(cfg, ("%s_span=%d\n%s_thresh=%d\nalign_on_tabstop=%s\nindent_columns=4\nindent_with_tabs=0\noutput_tab_size=%d\nnl_max=0\n"
+                    "eat_blanks_before_close_brace=false\neat_blanks_after_open_brace=false\n" % (pre, c["span"], pre, c["thresh"], str(c["tabstop"]).lower(), TAB))
+              + ("align_keep_extra_space=true\n" if c.get("keep") else ""))
     rc, so, se = sh([unc, "-c", cfg, "-q", "-l", "C", "-f", src], cwd=tmp, timeout=20)
 
     def columns(text):
@@ -65,7 +66,7 @@ def _job(a):
     os.unlink(src)
     os.unlink(cfg)
     return {"id": "%s|%d" % (how, i), "how": how, "rc": rc, "prog": c["prog"], "span": c["span"], "thresh": c["thresh"], "tabstop": c["tabstop"], "cols": cols,
-            "again": again, "predicted_unstable": bool(c.get("twice"))}
+            "again": again, "keep": bool(c.get("keep"))}
 
 
 def run(ctx):
@@ -107,18 +108,18 @@ def run(ctx):
     ru = tlc_retry("Align", "AlignUnst", cwd=d, workers=1, timeout=1800)
     if ru.error:
         ctx.error("AlignUnst: " + ru.error)
-    unstable = [dict(e, twice=True) for e in ru.emitted]
+    unstable = [dict(e, twice=True, keep=(k % 3 != 0)) for k, e in enumerate(ru.emitted)]
     open(os.path.join(d, "AlignUnstSim.cfg"), "w").write(hdr + "  MaxLines = 6\n  Widths = {1, 3, 5, 8, 12}\n  Lens = {1, 2, 3}\n  Breaks = {1, 2, 3}\n  Spans = {1, 2, 3}\n"
                                                          "  Threshs <- WideThreshs\nINVARIANTS EmitUnstable\nCHECK_DEADLOCK FALSE\n")
     rus = tlc_retry("Align", "AlignUnstSim", cwd=d, workers=4, simulate=300 if quick else 3000, depth=7, seed=ctx.seed, timeout=1800)
-    unstable += [dict(e, twice=True) for e in rus.emitted if len(e["prog"]) >= 4]
+    unstable += [dict(e, twice=True, keep=(k % 3 != 0)) for k, e in enumerate(rus.emitted) if len(e["prog"]) >= 4]
     ctx.cov["programs_predicted_unstable_by_tlc"] = len(unstable)
     ctx.rng.shuffle(unstable)
     ctx.rng.shuffle(cases)
     ctx.rng.shuffle(deep)
     # programs on which the skipped list decides: always replayed
     # every tenth stable program is formatted twice as well (the model says: nothing moves)
-    pick = [dict(c, twice=(k % 10 == 0)) for k, c in enumerate(cases[:2500 if quick else 60000] + deep[:2500 if quick else 40000])] + unstable[:800 if quick else 20000]
+    pick = [dict(c, twice=(k % 10 == 0), keep=(k % 20 == 0)) for k, c in enumerate(cases[:2500 if quick else 60000] + deep[:2500 if quick else 40000])] + unstable[:800 if quick else 20000]
     tmp = ctx.work.sub("align")
     jobs = [(unc, tmp, i, c, "func" if i % 3 else "enum") for i, c in enumerate(pick) if not (i % 3 == 0 and any(ln["len"] != 1 for ln in c["prog"] if ln["asg"]))]
     evs = pmap_proc(_job, jobs, nproc=14)
@@ -152,6 +153,7 @@ def run(ctx):
     tw = [e for e in ok if e["again"]]
     ctx.cov["formatted_twice"] = len(tw)
     ctx.cov["second_run_moved_an_operator"] = sum(1 for e in tw if e["again"] != e["cols"])
+    ctx.cov["second_run_moved_an_operator_without_keep_extra_space"] = sum(1 for e in tw if e["again"] != e["cols"] and not e["keep"])
     ctx.cov["second_run_differs_from_model"] = sum(1 for x in ctx.drift if x["kind"] == "SecondRunAsModel")
     ctx.cov["distinct_nontrivial"] = len({json.dumps([e["prog"], e["span"], e["thresh"], e["tabstop"], e["how"]]) for e in ok if any(c_ for c_ in e["cols"])})
     ctx.cov["rule"] = ("Align.tla: AlignStack transcribed; every program <= 3 lines over 3 widths x 2 operator lengths x 3 break counts x span 0..2 x "
